@@ -6,10 +6,14 @@ package dastard
 // into the trace; AnalysisTrace.tla turns "outside tolerance" into a violation.
 
 import (
+	"encoding/base64"
 	"fmt"
 	"math"
 	"math/big"
+	"os"
+	"sort"
 	"testing"
+	"time"
 
 	"gonum.org/v1/gonum/mat"
 )
@@ -352,5 +356,192 @@ func TestVerifAnalysis(t *testing.T) {
 			}()
 			vEmit(vmap{"ev": "Case", "scen": id, "npre": 1, "n": n, "signed": false, "base": 0, "panic": pan2, "bad": bad2, "kind": "refused-load"})
 		}
+	}
+}
+
+// TestVerifModelReload: the model of a channel is replaced while records are being analysed, through the real RPC
+// method on a running source (two models of the same shape, loaded alternately).  Whatever model a record was analysed
+// with, its coefficients and its residual must belong to the SAME loaded model (Analysis.tla: coefs = P x,
+// rsd2 = population variance of x - B coefs); a record that combines the projectors of one model with the basis of the
+// other was analysed with a pair that was never loaded.  Integer-valued matrices: the reference is exact in float64.
+func TestVerifModelReload(t *testing.T) {
+	const n, k, npre = 1000, 100, 100
+	dur := 1500 * time.Millisecond // loads are issued back to back for this long, however fast each is answered
+	if os.Getenv("VERIF_TIER") != "quick" {
+		dur = 10 * time.Second
+	}
+	rng := vRng()
+	type model struct {
+		P, B     *mat.Dense
+		p64, b64 string
+	}
+	mk := func(seed int) model {
+		P := mat.NewDense(k, n, nil)
+		B := mat.NewDense(n, k, nil)
+		for i := 0; i < k; i++ {
+			for j := 0; j < n; j++ {
+				P.Set(i, j, float64(((i*7+j*3)*(seed+1)+i*seed+seed)%5-2))
+				B.Set(j, i, float64(((i*3+j*11)*(seed+2)+j*seed+seed)%3-1))
+			}
+		}
+		pb, _ := P.MarshalBinary()
+		bb, _ := B.MarshalBinary()
+		return model{P, B, base64.StdEncoding.EncodeToString(pb), base64.StdEncoding.EncodeToString(bb)}
+	}
+	models := []model{mk(1), mk(2)}
+	ctl := NewSourceControl()
+	ctl.clientUpdates = clientMessageChan
+	ctl.mapServer = newMapServer()
+	ctl.status.Npresamp, ctl.status.Nsamples = npre, n
+	stopHB := make(chan struct{})
+	defer close(stopHB)
+	go func() {
+		for {
+			select {
+			case <-ctl.heartbeats:
+			case <-stopHB:
+				return
+			}
+		}
+	}()
+	if err := ctl.triangle.Configure(&TriangleSourceConfig{Nchan: 1, SampleRate: 1e6, Min: 100, Max: RawType(137 + rng.Intn(400))}); err != nil {
+		t.Fatal(err)
+	}
+	name := "TRIANGLESOURCE"
+	ok := false
+	if err := ctl.Start(&name, &ok); err != nil {
+		t.Fatal(err)
+	}
+	load := func(m model) error {
+		return ctl.ConfigureProjectorsBasis(&ProjectorsBasisObject{ChannelIndex: 0, ProjectorsBase64: m.p64, BasisBase64: m.b64, ModelDescription: "m"}, &ok)
+	}
+	if err := load(models[0]); err != nil {
+		t.Fatal(err)
+	}
+	if err := ctl.ConfigureTriggers(&FullTriggerState{ChannelIndices: []int{0}, TriggerState: TriggerState{AutoTrigger: true, AutoDelay: 0}}, &ok); err != nil {
+		t.Fatal(err)
+	}
+	vTakeRecords()
+	loadErrs := 0
+	var recs []*DataRecord
+	deadline := time.Now().Add(dur)
+	for i := 1; time.Now().Before(deadline); i++ {
+		if err := load(models[i%2]); err != nil {
+			loadErrs++
+		}
+		if i%20 == 0 {
+			for _, b := range vTakeRecords() {
+				recs = append(recs, b...)
+			}
+		}
+	}
+	time.Sleep(20 * time.Millisecond)
+	d := "x"
+	ctl.Stop(&d, &ok)
+	for _, b := range vTakeRecords() {
+		recs = append(recs, b...)
+	}
+	// judge
+	ref := func(m model, x []float64) ([]float64, float64) {
+		c := make([]float64, k)
+		for i := 0; i < k; i++ {
+			s := 0.0
+			row := m.P.RawRowView(i)
+			for j := 0; j < n; j++ {
+				s += row[j] * x[j]
+			}
+			c[i] = s
+		}
+		sr, sr2 := 0.0, 0.0
+		for j := 0; j < n; j++ {
+			mj := 0.0
+			row := m.B.RawRowView(j)
+			for i := 0; i < k; i++ {
+				mj += row[i] * c[i]
+			}
+			r := x[j] - mj
+			sr += r
+			sr2 += r * r
+		}
+		return c, (float64(n)*sr2 - sr*sr) / float64(n*n)
+	}
+	close2 := func(a, b float64) bool { return math.Abs(a-b) <= 1e-7*math.Max(math.Abs(b), 1) }
+	{ // the two models must be told apart by both quantities, or the stage proves nothing
+		x := make([]float64, n)
+		for j := range x {
+			x[j] = float64(100 + (j*37)%400)
+		}
+		c0, v0 := ref(models[0], x)
+		c1, v1 := ref(models[1], x)
+		diff := 0
+		for i := range c0 {
+			if !close2(c0[i], c1[i]) {
+				diff++
+			}
+		}
+		if diff < k/2 || close2(v0, v1) {
+			t.Fatalf("the two models are not distinguishable (%d coefficients differ, residuals %g %g)", diff, v0, v1)
+		}
+	}
+	id := 900000
+	nrec, nboth := 0, 0
+	bad := map[string]bool{}
+	flush := func() {
+		id++
+		bl := []string{}
+		for b := range bad {
+			bl = append(bl, b)
+		}
+		sort.Strings(bl)
+		vEmit(vmap{"ev": "Case", "scen": id, "npre": npre, "n": n, "signed": false, "base": 0, "panic": "", "bad": bl, "kind": "model-reload", "records": nrec, "loaderrs": loadErrs})
+		bad = map[string]bool{}
+	}
+	for _, r := range recs {
+		if len(r.data) != n || len(r.modelCoefs) != k {
+			if len(r.data) == n && len(r.modelCoefs) != k {
+				bad["coefs"] = true
+			}
+			continue
+		}
+		x := make([]float64, n)
+		for j := range x {
+			x[j] = float64(r.data[j])
+		}
+		which := -1
+		var rsd2 [2]float64
+		for mi := range models {
+			c, v := ref(models[mi], x)
+			rsd2[mi] = v
+			same := true
+			for i := 0; i < k; i++ {
+				if !close2(r.modelCoefs[i], c[i]) {
+					same = false
+					break
+				}
+			}
+			if same {
+				which = mi
+			}
+		}
+		nrec++
+		got := r.residualStdDev * r.residualStdDev
+		switch {
+		case which < 0:
+			bad["coefs"] = true // the coefficients are those of neither loaded model
+		case !close2(got, rsd2[which]):
+			if close2(got, rsd2[1-which]) {
+				nboth++
+				bad["model_mixed"] = true // projectors of one model, basis of the other
+			} else {
+				bad["resid"] = true
+			}
+		}
+		if nrec%100 == 0 {
+			flush()
+		}
+	}
+	flush()
+	if nrec < 50 {
+		t.Fatalf("only %d records were analysed with a model", nrec)
 	}
 }
